@@ -183,7 +183,7 @@ Section BRIDGE.
         | Some sorted =>
           match (match s_limit q with
                  | None => Some sorted
-                 | Some (IntV n) => Some (firstn (Z.to_nat n) sorted)
+                 | Some (IntV n) => Some (firstn (Z.to_nat n) (match s_orderby q with [] => tie _ sorted | _ => sorted end))
                  | Some _ => None end) with
           | None => None
           | Some out =>
